@@ -1,7 +1,7 @@
 (* C09 — Compile-time constants keep their exact Python values.
    Only statements; proofs live in Proof/P_Consts.v, the model in Model/M_Consts.v. *)
 From Coq Require Import ZArith List Bool.
-From CyVerif Require Import Lib.CInt Model.M_Consts Proof.P_Consts Model.M_ConstNames Proof.P_ConstNames.
+From CyVerif Require Import Lib.CInt Model.M_Consts Proof.P_Consts Proof.P_ConstsFrozen Model.M_ConstNames Proof.P_ConstNames.
 Import ListNotations.
 Open Scope Z_scope.
 
@@ -58,19 +58,43 @@ Theorem C09_negated_literal_current_refuted :
 Proof. exact negated_literal_current_refuted. Qed.
 Print Assumptions C09_negated_literal_current_refuted.
 
-(* Pooled containers.  Full statement (all constant nodes, key function as it is):
-     key_eq (top_key false false t1) (top_key false false t2) -> identical constants
-   is FALSE (C09_dedup_unrepaired_refuted).  Proved for the repaired key function
-   (float sign in the leaf key, ordered frozenset key): *)
-Theorem C09_dedup_injective : forall t1 t2 k1 k2,
+(* Pooled containers (tuples, slices, frozensets, nested, with multipliers).  The key function of
+   the tree: leaf keys carry the sign of a float (92db38a9b); a frozenset key keeps the first item
+   key per Python value (a8197db74).  Full statement
+     key_eq (top_key2 true false t1) (top_key2 true false t2) -> identical constants
+   is FALSE (C09_dedup_unguarded_refuted: a multiplied tuple among the items of a frozenset).
+   Proved: for the repaired key function (guard = true: such frozensets are not pooled) and, for
+   the code as it is, whenever no frozenset item contains a multiplied tuple. *)
+Theorem C09_dedup_injective : forall guard t1 t2 k1 k2,
+  wf_top2 t1 = true -> wf_top2 t2 = true ->
+  guard = true \/ (top_has_mult t1 = false /\ top_has_mult t2 = false) ->
+  top_key2 true guard t1 = Some k1 -> top_key2 true guard t2 = Some k2 ->
+  key_eq k1 k2 = true ->
+  exists c1 c2, denote_top t1 = Some c1 /\ denote_top t2 = Some c2 /\ identical_top c1 c2.
+Proof. exact dedup_first_injective. Qed.
+Print Assumptions C09_dedup_injective.
+
+(* finding frozenset_multiplied_tuple_merged: frozenset(((1,)*2, (1.0, 1.0))) and
+   frozenset(((1.0, 1.0), (1,)*2)) share a key but are different constants *)
+Theorem C09_dedup_unguarded_refuted :
+  exists t1 t2 k1 k2 c1 c2,
+    wf_top2 t1 = true /\ wf_top2 t2 = true /\
+    top_key2 true false t1 = Some k1 /\ top_key2 true false t2 = Some k2 /\ key_eq k1 k2 = true /\
+    denote_top t1 = Some c1 /\ denote_top t2 = Some c2 /\ ~ identical_top c1 c2.
+Proof. exact dedup_first_unguarded_refuted. Qed.
+Print Assumptions C09_dedup_unguarded_refuted.
+
+(* the earlier key functions (top_key fx os: fx = float sign in the leaf key, os = frozenset items
+   in an ordered tuple).  (true, true) = 92db38a9b was injective; each repair missing: refuted
+   (the former findings float_zero_sign_merged / frozenset_order_merged) *)
+Theorem C09_dedup_ordered_variant_injective : forall t1 t2 k1 k2,
   wf_top t1 = true -> wf_top t2 = true ->
   top_key true true t1 = Some k1 -> top_key true true t2 = Some k2 ->
   key_eq k1 k2 = true ->
   exists c1 c2, denote_top t1 = Some c1 /\ denote_top t2 = Some c2 /\ identical_top c1 c2.
 Proof. exact dedup_injective. Qed.
-Print Assumptions C09_dedup_injective.
+Print Assumptions C09_dedup_ordered_variant_injective.
 
-(* findings: with either repair missing two different constants share a key *)
 Theorem C09_dedup_unrepaired_refuted : forall fx os, fx && os = false ->
   exists t1 t2 k1 k2 c1 c2,
     wf_top t1 = true /\ wf_top t2 = true /\
@@ -78,6 +102,16 @@ Theorem C09_dedup_unrepaired_refuted : forall fx os, fx && os = false ->
     denote_top t1 = Some c1 /\ denote_top t2 = Some c2 /\ ~ identical_top c1 c2.
 Proof. exact dedup_unrepaired_refuted. Qed.
 Print Assumptions C09_dedup_unrepaired_refuted.
+
+(* sharing (not part of the property, the reason for a8197db74): the item order of a frozenset
+   literal no longer matters when no two items are == *)
+Theorem C09_frozen_key_order_free :
+  exists k1 k2,
+    top_key2 true true (TopFrozen [NLeaf TPyInt (SInt 1); NLeaf TPyInt (SInt 2); NLeaf TPyInt (SInt 3)]) = Some k1 /\
+    top_key2 true true (TopFrozen [NLeaf TPyInt (SInt 3); NLeaf TPyInt (SInt 1); NLeaf TPyInt (SInt 2)]) = Some k2 /\
+    key_eq k1 k2 = true.
+Proof. exact frozen_key_order_free. Qed.
+Print Assumptions C09_frozen_key_order_free.
 
 (* constant folding of BoolNode/IntNode operands: a replaced node has Python's class and value,
    and every constant result of the fragment is replaced *)
@@ -103,7 +137,10 @@ Example C09_nonvacuous :
   /\ str_to_number (strip_us [45; 48; 120; 95; 49; 70]) = Some (-31)
   /\ int_emission true 1 (- (2 ^ 70)) = Some (- (2 ^ 70))
   /\ (let t := TopSeq (NSeq TPyTuple true None [NLeaf TPyFloat (SFloat 0); NLeaf TPyInt (SInt 1)]) in
-      wf_top t = true /\ match top_key true true t with Some k => key_eq k k | None => false end = true)
+      wf_top2 t = true /\ match top_key2 true true t with Some k => key_eq k k | None => false end = true)
+  /\ (let t := TopFrozen [NLeaf TPyInt (SInt 1); NLeaf TPyFloat (SFloat 4607182418800017408); NLeaf TPyInt (SInt 2)] in
+      wf_top2 t = true /\ top_has_mult t = false /\
+      match top_key2 true false t with Some (KCont _ true [_; _]) => true | _ => false end = true)
   /\ fold_binop OAdd (LBool true) (LInt 1) = Some (FInt [48; 120; 50])
   /\ fold_binop OAnd (LBool true) (LBool false) = Some (FBool false).
 Proof. vm_compute. repeat split; reflexivity. Qed.
